@@ -49,6 +49,17 @@ func (x *Exec) regexMatch(pattern string, s StrV) *smt.Term {
 			x.lenAxiom[t.ID] = true
 			x.Assume(B.Implies(B.Eq(s.Atom, B.StrConst("")), B.Eq(t, B.Bool(regexp.MustCompile(pattern).MatchString("")))), "regex on empty string")
 		}
+		// every string constant of the run: the predicate is the regex engine's own verdict
+		if x.regexSeen == nil {
+			x.regexSeen = map[string]*regexp.Regexp{}
+		}
+		if _, ok := x.regexSeen[pattern]; !ok {
+			re := regexp.MustCompile(pattern)
+			x.regexSeen[pattern] = re
+			for _, cs := range x.B.ConstL[:x.constDone] {
+				x.Assume(B.Eq(B.App(patternName(pattern), smt.SBool, x.B.Consts[cs]), B.Bool(re.MatchString(cs))), "regex on a string constant")
+			}
+		}
 		return t
 	}
 	return x.nfaMatch(pattern, s.Bytes)
